@@ -19,8 +19,8 @@ import (
 	"github.com/ipfs/go-cid"
 	"github.com/ipld/go-ipld-prime/datamodel"
 	cidlink "github.com/ipld/go-ipld-prime/linking/cid"
-	mh "github.com/multiformats/go-multihash"
 	"github.com/ipld/go-ipld-prime/node/basicnode"
+	mh "github.com/multiformats/go-multihash"
 	"github.com/storacha/go-ucanto/client"
 	"github.com/storacha/go-ucanto/core/car"
 	"github.com/storacha/go-ucanto/core/delegation"
